@@ -11,14 +11,14 @@ from ..tlc import account, run_tlc
 
 LEVEL = 'model_checking'
 FAULTS = {
-    'json': ['raise', 'mistyped', 'unserializable'],
-    'numpy': ['raise', 'mistyped'],
-    'pandas': ['raise', 'mistyped'],
-    'generated': ['raise', 'unserializable', 'genraise'],
-    'lazy': ['raise', 'mistyped', 'unserializable', 'genraise'],
-    'listnpy': ['raise', 'mistyped'],
-    'dir': ['raise', 'mistyped'],
-    'continues': ['raise', 'mistyped'],
+    'json': ['raise', 'interrupt', 'mistyped', 'unserializable'],
+    'numpy': ['raise', 'interrupt', 'mistyped'],
+    'pandas': ['raise', 'interrupt', 'mistyped'],
+    'generated': ['raise', 'interrupt', 'unserializable', 'genraise'],
+    'lazy': ['raise', 'interrupt', 'mistyped', 'unserializable', 'genraise'],
+    'listnpy': ['raise', 'interrupt', 'mistyped'],
+    'dir': ['raise', 'interrupt', 'mistyped'],
+    'continues': ['raise', 'interrupt', 'mistyped'],
 }
 
 
@@ -71,6 +71,30 @@ def _crash_job(job):
         label = f'{kind}/{phase}/{fault or "ok"}: process dies ' + (f'right after file operation #{k[1]} (a rename)' if after else f'before file operation #{k}') + (
             f' with {torn[1]} bytes of {Path(torn[0]).suffix or "the file"} written' if torn else '')
         return job[:3] + (k, torn), _judge(kind, later, label), later
+    finally:
+        shutil.rmtree(d, ignore_errors=True)
+
+
+def _oserror_job(job):
+    """Operation k fails with OSError (disk full, permission ...): the request raises; asking again in the same process
+    and a later chain must both recover."""
+    kind, phase, pre, work, k = job
+    d = faults.fresh(pre, work, f'oserr_{os.getpid()}')
+    try:
+        try:
+            out = run_forked(faults.attempt, kind, phase, None, str(d), None, k)
+        except ChildCrashed as e:
+            return job, [('harness', f'child died: {e}')]
+        bad = []
+        label = f'{kind}/{phase}: file operation #{k} fails with OSError'
+        if out['exc'] is None:
+            return job, []   # the operation is not reached / its failure is tolerated: nothing to judge
+        if out.get('retry_exc') or out.get('retry') != faults.ref(kind):
+            bad.append(('oserror:retry', f'{label}: requesting the value again in the same process does not recover: '
+                                         f"{out.get('retry_exc') or out.get('retry')}"))
+        later = run_forked(faults.later_chain, kind, str(d))
+        bad += [(f'oserror:{c}', t) for c, t in _judge(kind, later, label + ', then a later chain')]
+        return job, bad
     finally:
         shutil.rmtree(d, ignore_errors=True)
 
@@ -173,6 +197,21 @@ def run(ctx):
             how = 'torn-write' if torn else ('crash-after-rename' if isinstance(k, tuple) else 'crash')
             findings.append((f'{kind}:{phase}:{fault or "ok"}:{how}:{cls}', text))
     ctx.extra['real_crash_points_with_bad_outcome'] = real_bad
+    # ---- an operation that FAILS (OSError) instead of the process dying
+    ojobs = []
+    for name, (kind, phase, fault, pre, rec, aops) in recs.items():
+        if fault is None:
+            for k in sorted({x['real'] for x in aops}):
+                ojobs.append((kind, phase, pre, work, k))
+    oout = pmap(_oserror_job, ojobs)
+    ctx.traces += len(ojobs)
+    ctx.extra['failing_operations_replayed'] = len(ojobs)
+    for job, bad in oout:
+        ctx.case(json.dumps(['oserror', job[0], job[1], job[4]]), nontrivial=True)
+        for cls, text in bad:
+            if cls == 'harness':
+                raise MachineryError(text)
+            findings.append((f'{job[0]}:{job[1]}:{cls}', text))
     for sig, text in findings:
         ctx.report(sig, text)
     ctx.assumptions += ['crash points are Python-level file operations; a crash inside one write is represented by torn '
